@@ -1897,3 +1897,113 @@ def r8_7(rep):
 
 
 RULES.rules.sort(key=lambda r: r.id)
+
+
+# ---- added by the main session after independently seeded changes ------------------------------------------------------------
+@RULES.rule("R8.8", "the analyses that feed the derives re-queue on every fact they read (shared with C07 R7.1)", floor=40)
+def r8_8(rep):
+    """Eq/Ord are withheld through `has_float`: when `HasFloat::consider_edge` loses `TemplateDeclaration`, an instantiation visited
+    before its template definition is never revisited and `struct Reading { Scaled<int> value; }` derives Eq although the definition
+    of `Scaled` has a float member (caught by C07's rule only when it was seeded as a C08 change)."""
+    import c07
+    c07.r7_1(rep)
+
+
+def _formula(b, e):
+    e = strip(e)
+    k = e.get("k")
+    if k == "Unary" and e["op"] == "!":
+        return ("not", _formula(b, e["e"]))
+    if k == "Binary" and e["op"] in ("&&", "||"):
+        return ("and" if e["op"] == "&&" else "or", _formula(b, e["l"]), _formula(b, e["r"]))
+    if k == "Local":
+        init = b.local_init(e["id"])
+        if init is not None and strip(init).get("k") in ("Unary", "Binary", "Local"):
+            return _formula(b, init)
+    return ("atom", b.canon(e, 6))
+
+
+def _reach(b, n):
+    f = ("true",)
+    for pol, kind, g in b.guards(n, nested=True):
+        if kind == "cond":
+            x = _formula(b, g)
+        elif kind in ("arm", "notarm"):
+            x = ("atom", "arm:%s:%d" % (b.canon(g[0]["scrut"], 4), g[1]))
+        else:
+            x = ("atom", "%s:%d" % (kind, id(g) % 100000))
+        f = ("and", f, x if pol else ("not", x))
+    return f
+
+
+def _atoms(f, acc):
+    if f[0] == "atom":
+        acc.add(f[1])
+    for x in f[1:]:
+        if isinstance(x, tuple):
+            _atoms(x, acc)
+    return acc
+
+
+def _ev(f, env):
+    t = f[0]
+    if t == "true":
+        return True
+    if t == "atom":
+        return env[f[1]]
+    if t == "not":
+        return not _ev(f[1], env)
+    if t == "and":
+        return _ev(f[1], env) and _ev(f[2], env)
+    return _ev(f[1], env) or _ev(f[2], env)
+
+
+@RULES.rule("R8.9", "a packed type that does not get Copy derives nothing at all (decided over all combinations of the conditions)", floor=2)
+def r8_9(rep):
+    """`#[derive(Debug)]` on a `#[repr(packed)]` struct borrows its fields, which is only allowed for Copy types.  In
+    `derives_of_item` every path on which `packed` holds and the COPY bit is not set must take the early `return`.  Un-nesting
+    `if can_derive_copy && !disallow_copy {..} else if packed {return}` into `if can_derive_copy { if !disallow_copy {..} } else if packed`
+    lets a packed struct annotated `nocopy` keep Debug/Default/Hash/PartialEq (E0507 / unaligned reference)."""
+    import itertools
+    prog = rep.prog
+    cands = [b for p, b in prog.bodies.items() if p.endswith("::derives_of_item")]
+    rep.need(cands, "derives_of_item")
+    b = cands[0]
+    sets = [n for n in b.walk() if n["k"] == "AssignOp" and n["op"] == "|=" and "DerivableTraits::COPY" in b.canon(n["r"], 6)]
+    rets = [n for n in b.walk() if n["k"] == "Ret"]
+    rep.need(sets, "`derivable_traits |= COPY` in derives_of_item")
+    copy_f = ("false",)
+    copy_f = None
+    for s in sets:
+        f = _reach(b, s)
+        copy_f = f if copy_f is None else ("or", copy_f, f)
+    ret_f = None
+    for r in rets:
+        f = _reach(b, r)
+        # only early returns taken before any other bit is set (the packed early return)
+        ret_f = f if ret_f is None else ("or", ret_f, f)
+    if not rep.check(ret_f is not None, "packed-early-return-exists", "derives_of_item has an early return", b.loc(b.root)):
+        return
+    atoms = sorted(_atoms(copy_f, set()) | _atoms(ret_f, set()))
+    packed_atoms = [a for a in atoms if a == "param:packed" or a.endswith("packed")]
+    if not rep.check(len(packed_atoms) == 1, "packed-atom", "the early return depends on `packed` (atoms: %s)" % [a[:40] for a in atoms], b.loc(b.root)):
+        return
+    pk = packed_atoms[0]
+    bad = None
+    n = 0
+    for vals in itertools.product([False, True], repeat=len(atoms)):
+        env = dict(zip(atoms, vals))
+        if not env[pk]:
+            continue
+        n += 1
+        if not _ev(copy_f, env) and not _ev(ret_f, env):
+            bad = env
+            break
+    rep.check(bad is None, "packed-without-copy-derives-nothing",
+              "over %d combinations: packed and COPY not set implies the early return%s" %
+              (n, (" — counterexample: " + ", ".join("%s=%s" % (k.split("::")[-1][:30], v) for k, v in bad.items())) if bad else ""), b.loc(sets[0]))
+    # other bits are only added after that return
+    others = [n_ for n_ in b.walk() if n_["k"] == "AssignOp" and n_["op"] == "|=" and "DerivableTraits::" in b.canon(n_["r"], 6) and n_ not in sets
+              and "DerivableTraits::CLONE" not in b.canon(n_["r"], 6)]
+    first_ret = min(r["_i"] for r in rets)
+    rep.check(all(o["_i"] > first_ret for o in others), "other-bits-after-packed-return", "every other derive bit is added after the packed early return", b.loc(b.root))
